@@ -114,7 +114,7 @@ def _l1_modes(rep, tier, seed):
                 te, _ = re.run(b)
             rep.traces += 1
             rep.add_case(("l1-jit-vs-eager", sv, strat, initc, repr(tj["hdr"]["steps"])))
-            if tj != te:
+            if tj["hdr"] != te["hdr"] or tj["ev"] != te["ev"]:
                 k = next((i for i, (a, c) in enumerate(zip(tj["ev"], te["ev"])) if a != c), min(len(tj["ev"]), len(te["ev"])))
                 rep.violation(f"impl:l1:jit-vs-eager:{sv}:{strat}", f"operation logs differ at event {k}", {"jit": tj["ev"][max(0, k - 2): k + 2], "eager": te["ev"][max(0, k - 2): k + 2]})
             traces.append(tj)
